@@ -16,7 +16,7 @@ QUICK = {"lifecycle": 40, "forge": 60, "limits": 60, "amplify": 60, "timers": 50
 def streams(seed, tier):
     out = []
     for nm in ["lifecycle", "forge", "limits", "timers"]:
-        n = QUICK[nm] * (10 if tier == "thorough" else 1)
+        n = QUICK[nm] * (_hc.EP_THOROUGH_FACTOR if tier == "thorough" else 1)
         out.append(getattr(hc_streams, "ep_" + nm)(seed, n))
     return out
 
